@@ -324,6 +324,7 @@ static void sw_json_str(FILE *f, const char *s) {
 }
 
 static int sw_main(int argc, char **argv) {
+  xv_fptrap_from_env();      /* XV_FPTRAP: the whole sweep runs in a host that traps FP exceptions */
   int a, k; const char *out = NULL, *lastp = NULL; FILE *fo;
   sw_seed = xv_seed_env();
   for (a = 2; a < argc; a++) {
